@@ -28,6 +28,10 @@ def run_check(pid, prop, tier, seed):
     ev = {"property_id": pid, "tier": tier, "seed": seed, "level": prop.LEVEL, "coverage": {}, "assumptions": [], "violations": 0}
     cov = ev["coverage"]
     broken = []      # broken proof obligations / ties (strings)
+    rd = os.path.join(C.VERIF, "replays")
+    if os.path.isdir(rd):
+        for f in os.listdir(rd):
+            if f.startswith(pid + "_"): os.remove(os.path.join(rd, f))
     # ---- 1. constants, hygiene, proofs
     okc, outc = C.regen_consts()
     if not okc: broken.append("constants translator failed: " + outc.strip()[-300:])
